@@ -569,3 +569,89 @@ Theorem C12_oracle_sound : forall (A : Type) (ops : app_ops A) (p : params),
   forall k r, In (k, r) (monitor p (length apps) (model_transcript A ops p apps ins)) -> rule_prop r <> PC12.
 Proof. exact c12_oracle_sound. Qed.
 Print Assumptions C12_oracle_sound.
+
+(* ------------------------------------------------------------------------------------------ *)
+(* ORACLE SOUNDNESS of the sweep-order / restart monitor (Model/FdlSweep.v: smonitor, sweep_poll, rules
+   P12_sweep_order - "while the GAP cursor stays in its polling phase two consecutive GAP requests of the station go
+   to consecutive addresses" - and P12_offline_forgets_ring - "the view right after set_offline / new is that of a
+   fresh station"; proofs in Proofs/FdlSweepSound.v).  UNCONDITIONAL: every model transcript.
+
+   The monitor state (k0 = state kind of the previous view, last = address of the last own GAP request of the
+   current polling phase) is tied to the station by sweep_inv f k0 last :=
+     k0 = kind_of (f_state f) /\ forall a0, last = Some a0 -> f_gap f = GapDoPoll a0 /\ f_state f <> Offline.
+
+   (A first version of the monitor kept `last` over a poll that ends Offline and had a false positive - the station
+   re-creates itself INSIDE a poll on the second address collision while listening, no API event, cursor back to
+   DoPoll{TS}; found while proving this, reproduced on the unmodified crate, witness
+   corpus/fdl/sweep-recreated-in-poll.cases; sweep_poll forgets `last` after such a poll now, and
+   C12_sweep_monitor_recreated_in_poll is the model transcript of that history, accepted.)
+
+   ONE STEP, all station states satisfying Rep and sweep_inv, all times in range, inputs, total applications:
+   whenever a poll of the model returns, the rule is silent on the event the driver builds from it, and Rep, the
+   parameters and sweep_inv hold again for the new station and the new monitor state.  No hypothesis on what the
+   applications transmit (app_sends_data is NOT needed: a transmission in a poll with a transmitting application
+   call is not counted by the monitor, and a GAP request of do_pass_token / do_claim_token never comes with one). *)
+From PB Require Import FdlSweep FdlRingSound FdlSweepSound.
+
+Theorem C12_sweep_monitor_step_sound : forall (A : Type) (ops : app_ops A) (p : params), apps_total A ops ->
+  forall (f : fdl) (now : Z) (busy : bool) (rxb : bytes) (apps : list A) (f' : fdl) (o : phy_out) (apps' : list A)
+         (calls : list call) (k0 : state_kind) (last : option Z),
+  Rep (length apps) f -> f_p f = p -> time_ok now -> all_bytes rxb -> sweep_inv f k0 last ->
+  poll ops f now (mkPhyIn busy rxb) apps = Ok (f', o, apps', calls) ->
+  let s := poll_event now busy rxb f' o calls in
+  snd (sweep_poll p k0 last s) = [] /\
+  Rep (length apps') f' /\ f_p f' = p /\ sweep_inv f' (v_kind (s_view s)) (fst (sweep_poll p k0 last s)).
+Proof. exact sweep_step_sound. Qed.
+Print Assumptions C12_sweep_monitor_step_sound.
+
+(* the rule of set_offline / new, one call: the view of the station that set_offline (= FdlActiveStation::new with
+   the station's parameters) returns is a fresh view - LAS not valid and = {TS}, NS = PS = TS *)
+Theorem C12_offline_view_is_fresh : forall (p : params) (f0 : fdl),
+  fdl_new p = Ok f0 -> fresh_view (p_address p) (view_of f0) = true.
+Proof. exact fdl_new_fresh. Qed.
+Print Assumptions C12_offline_view_is_fresh.
+
+(* HISTORIES.  The monitor as the check runs it (all parameters; it only looks at builder-valid ones), all total
+   applications, all admissible input histories (API calls and polls in any order, strictly increasing times in
+   range, received bytes are bytes): silent.  Neither builder_valid p nor app_sends_data is needed. *)
+Theorem C12_sweep_monitor_sound : forall (A : Type) (ops : app_ops A) (p : params),
+  apps_total A ops ->
+  forall (apps : list A) (ins : list minput), ins_ok 0 ins ->
+  smonitor p (model_transcript A ops p apps ins) = [].
+Proof. exact sweep_monitor_sound. Qed.
+Print Assumptions C12_sweep_monitor_sound.
+
+(* non-vacuity, computed.  Station 3 alone on the bus, HSA = 5 (GAP = {4, 0, 1, 2}), 120 polls 2 ms apart: it claims
+   the token, scans 4 0 1 2 in ClaimToken and then polls 4, 0, 1, 2 in CONSECUTIVE token visits, twice over; the
+   monitor accepts. *)
+Example C12_sweep_monitor_example_accepted :
+  builder_validb ex_sweep_params = true /\
+  gap_polls_in KClaimToken 3 ex_sweep_tr = [4; 0; 1; 2] /\
+  gap_polls_in KAwaitStatusResponse 3 ex_sweep_tr = [4; 0; 1; 2; 4; 0; 1; 2] /\
+  smonitor ex_sweep_params ex_sweep_tr = [].
+Proof. exact sweep_example_accepted. Qed.
+Print Assumptions C12_sweep_monitor_example_accepted.
+
+(* hand-made events: 4 then 0 (= successor of 4 below HSA 5) is accepted; 4 then 4 again (the cursor thrown back,
+   seeded change R5-C12-2) and 4 then 1 (an address skipped) are rejected with P12_sweep_order; a view with a valid
+   LAS right after set_offline (R5-C12-1) is rejected with P12_offline_forgets_ring, the fresh view accepted *)
+Example C12_sweep_monitor_example_rejected :
+  smonitor ex_sweep_params [EApi ApiNew ex_fresh; ex_gap_request 1000 4; ex_gap_request 9000 0] = [] /\
+  smonitor ex_sweep_params [EApi ApiNew ex_fresh; ex_gap_request 1000 4; ex_gap_request 9000 4] = [(2%nat, P12_sweep_order)] /\
+  smonitor ex_sweep_params [EApi ApiNew ex_fresh; ex_gap_request 1000 4; ex_gap_request 9000 1] = [(2%nat, P12_sweep_order)] /\
+  smonitor ex_sweep_params [EApi ApiNew ex_fresh; EApi ApiOnline ex_fresh; EApi ApiOffline ex_stale] = [(2%nat, P12_offline_forgets_ring)] /\
+  smonitor ex_sweep_params [EApi ApiNew ex_fresh; EApi ApiOnline ex_fresh; EApi ApiOffline ex_fresh] = [].
+Proof. exact sweep_example_rejected. Qed.
+Print Assumptions C12_sweep_monitor_example_rejected.
+
+(* the corner of the first version, computed: an admissible input history whose MODEL transcript contains a poll that
+   ends Offline out of ListenToken (views 6..8: ActiveIdle, ListenToken, Offline - the station re-created inside the
+   poll), with the GAP request to 4 = TS + 1 both before it (post-claim scan) and after the new entry into the ring;
+   accepted. *)
+Example C12_sweep_monitor_recreated_in_poll :
+  builder_validb ex_fp_params = true /\ ins_ok 0 ex_fp_ins /\
+  gap_polls_in KClaimToken 3 ex_fp_tr = [4] /\ gap_polls_in KAwaitStatusResponse 3 ex_fp_tr = [4] /\
+  firstn 3 (skipn 6 (view_kinds ex_fp_tr)) = [KActiveIdle; KListenToken; KOffline] /\
+  smonitor ex_fp_params ex_fp_tr = [].
+Proof. exact sweep_recreated_in_poll_accepted. Qed.
+Print Assumptions C12_sweep_monitor_recreated_in_poll.
